@@ -41,6 +41,8 @@ pub fn counts(ctx: &mut Ctx) {
     let nmax: usize = if ctx.tier_thorough { 2000 } else { 500 };
     let mut sizes: Vec<usize> = (0..=nmax).collect();
     sizes.extend([4096, 10_000]);
+    let huge: usize = 42_949_673; // 50 * size > i32::MAX
+    crate::core::DRAW_HORIZON.store(400_000_000, std::sync::atomic::Ordering::Relaxed);
     for n in sizes {
         let id = match ctx.take() {
             Some(id) => id,
@@ -71,6 +73,24 @@ pub fn counts(ctx: &mut Ctx) {
         let v = if problems.is_empty() { Verdict::Pass } else { Verdict::fail("random_bool_vector", "true-count", problems[..problems.len().min(4)].join("; ")) };
         ctx.nontrivial_mark(&format!("{}|{}", n, okey));
         ctx.record(id, &format!("{}|{}", n, okey), v, || format!("random_bool_vector size {} x sparsity 0.00..1.00", n));
+    }
+    // one very long vector (the product percent x size no longer fits 32 bits)
+    if let Some(id) = ctx.take() {
+        ctx.transitions += 1;
+        ctx.states += 1;
+        let (r, _log) = scripted(&[], 400_000_000, || CodeGenerator::random_bool_vector(huge as i32, 0.5).map(|v| (v.values.len(), v.values.iter().filter(|b| **b).count())));
+        let v = match r {
+            Err(p) => Verdict::fail("random_bool_vector", &panic_class(&p), format!("size {} sparsity 0.5: {}", huge, p)),
+            Ok(None) => Verdict::fail("random_bool_vector", "none", format!("size {} sparsity 0.5: no vector", huge)),
+            Ok(Some((len, cnt))) => {
+                if len == huge && cnt == huge / 2 {
+                    Verdict::Pass
+                } else {
+                    Verdict::fail("random_bool_vector", "true-count", format!("size {} sparsity 0.5: length {} with {} TRUE bits (expected {})", huge, len, cnt, huge / 2))
+                }
+            }
+        };
+        ctx.record(id, "huge", v, || format!("random_bool_vector size {} sparsity 0.5", huge));
     }
 }
 
